@@ -10,6 +10,8 @@ import copy
 from vflib.parts import CH
 
 INPUTS = {
+    # models with the same fields and types but another key order (they compare equal although they are distinct objects)
+    "equal_models": [{"first": {"a": 1, "b": 2, "c": 1.5}, "second": {"c": 2.5, "b": 3, "a": 4}, "third": [{"b": 5, "c": 3.5, "a": 6}]}],
     # strings that differ only by case: any order that is not a total order on the strings leaks the set order
     "case_literals": [{"state": "ok", "tags": ["A", "a"]}, {"state": "OK", "tags": ["B", "b", "a"]}, {"state": "Ok", "tags": []}],
     # two mergeable nested models with different field sets and orders (merged field order is the classic leak)
@@ -114,7 +116,7 @@ def scen_seeds_literals(ch, params, out):
     """sets of str (literal sets, name parts) cannot be re-ranked from outside: checked by sorted()-ness of the output under two real seeds"""
     import os
     import subprocess
-    inp = ch.choose("input", ["literals", "names", "merge3", "case_literals"], shard=False)
+    inp = ch.choose("input", ["literals", "names", "merge3", "case_literals", "equal_models"], shard=False)
     seed = 1 + ch.pick("seed", params.get("seeds", 6))
     outs = []
     for s in (0, seed):
@@ -130,12 +132,12 @@ def scen_seeds_literals(ch, params, out):
 
 def parts(tier):
     if tier == "quick":
-        return [CH("ranks", "vflib.props.c06:scen_ranks", {"inputs": ["merge2", "merge3", "shared"], "max_ranked": 5}, shards=16, timeout=170, path_timeout=60),
+        return [CH("ranks", "vflib.props.c06:scen_ranks", {"inputs": ["merge2", "merge3", "shared", "equal_models"], "max_ranked": 5}, shards=16, timeout=170, path_timeout=60),
                 CH("real_seeds", "vflib.props.c06:scen_seeds_literals", {"seeds": 5}, shards=1, timeout=170, path_timeout=60),
                 CH("same_generation_later_in_process", "vflib.props.c14:scen_history",
                    {"calls": 3, "inputs": ["simple", "shared"], "frameworks": ["pydantic"]}, shards=12, timeout=170, path_timeout=60)]
-    return [CH("ranks", "vflib.props.c06:scen_ranks", {"inputs": ["merge2", "merge3", "shared", "names", "literals"], "max_ranked": 7}, shards=16, timeout=3000, path_timeout=60),
-            CH("real_seeds", "vflib.props.c06:scen_seeds_literals", {"seeds": 40}, shards=1, timeout=1500, path_timeout=60)]
+    return [CH("ranks", "vflib.props.c06:scen_ranks", {"inputs": ["merge2", "merge3", "shared", "names", "literals", "equal_models"], "max_ranked": 7}, shards=16, timeout=900, path_timeout=60),
+            CH("real_seeds", "vflib.props.c06:scen_seeds_literals", {"seeds": 40}, shards=1, timeout=700, path_timeout=60)]
 
 
 META = {
